@@ -390,8 +390,14 @@ def build(ctx):
         # the module-level table `weekdays` must map k to dateutil's k-th weekday constant
         wk = m.global_assign('weekdays')
         names = ['MO', 'TU', 'WE', 'TH', 'FR', 'SA', 'SU']
-        if not (isinstance(wk, ast.Dict) and [getattr(k, 'value', None) for k in wk.keys] == list(range(7)) and [ast.unparse(v) for v in wk.values] == names):
-            raise SelectorError('weekdays is not {0: MO, ..., 6: SU}')
+        if not (isinstance(wk, ast.Dict) and sorted(getattr(k, 'value', None) for k in wk.keys if isinstance(getattr(k, 'value', None), int)) == list(range(7))
+                and len(wk.keys) == 7):
+            raise SelectorError('weekdays is not a literal table over the keys 0..6')
+        # table obligation: entry k is dateutil's k-th weekday constant (Monday = 0, as datetime.weekday() counts and self.weekend is given)
+        table = {k.value: ast.unparse(v) for k, v in zip(wk.keys, wk.values)}
+        ctx.post('_populate.weekdays_table_maps_k_to_the_kth_weekday_constant', [], BoolVal(all(table[i] == names[i] for i in range(7))), kind='syntactic',
+                 witness=dict(table=IntVal(0)), replay=lambda model: dict(kind='weekend_sets'))
+        ctx.obligations[-1].meta['replay_without_model'] = True
         ND = Int('ND')
         D = Function('allowed_day', IntSort(), IntSort())          # the rrule sequence (ordinals), axiomatised below
         P = lambda k: If(k < ND, D(k), T1o + 1)                    # first day not yet passed when k elements have been consumed
